@@ -7,7 +7,7 @@ PROPS="C01 C02 C03 C04 C05 C06 C07 C08 C09 C10 C11 C12 C13 C14 C15 C16 C17 C18 C
 out=${OUT:-seeded/RESULTS.md}
 echo "| seed | breaks | caught by (property: rules) |" > $out
 echo "|------|--------|------------------------------|" >> $out
-for d in seeded/C*; do
+for d in ${SEEDS:-seeded/C*}; do
   n=$(basename $d)
   git -C $REPO diff --quiet || { echo "/repo dirty"; exit 2; }
   git -C $REPO apply /verif/$d/patch.diff || continue
